@@ -1723,6 +1723,9 @@ def cases(tier, seed, flavour):
             for bi, blk in enumerate(chunks(all_patterns(m * n)[::(1 if th else 5)], 27)):
                 if keep(bi, 4, 2):
                     yield {'p': 'elementwise', 'A': [[m, n, tc, p] for p in blk], 'tcb': 'dz' if tc == 'd' else 'z'}
+    if not san:
+        for tc in 'dz':
+            yield {'p': 'huge', 'tc': tc}
     # ---- 4. block matrices and spdiag
     for part in range(4):
         yield {'p': 'blocks', 'part': part, 'tier': tier}
@@ -1881,6 +1884,23 @@ def _run(c, case, seed, extra):
             for tcb in case['tcb']:
                 for pb in b_palette(d[0], d[1], 'thorough') if d[0] * d[1] else ['']:
                     ev_elementwise(c, d, [d[0], d[1], tcb, pb], seed)
+    elif p == 'huge':
+        # spmatrix from triplets with more than 2^31 rows (entries on both sides of 2^31 and 2^32, given in every order):
+        # column-wise ascending row indices, values in place, copies equal - the enumeration of checks/C20.py, keyed here
+        from checks import C20
+
+        class _Adapt(object):
+            def ev(self, nt=False):
+                c.n += 1
+                if nt:
+                    c.nontrivial += 1
+
+            def bad(self, key, msg, sub=None):
+                c.fail(key.replace('C20:', 'C16:huge-dimension:'), msg, sub)
+
+            def asan(self, *a):
+                pass
+        C20._run_sparse_huge({'tc': case['tc']}, _Adapt())
     elif p == 'blocks':
         ev_blocks(c, seed, case['tier'], case['part'])
     elif p == 'spdiag':
